@@ -132,6 +132,36 @@ pub fn known_shapes(root: &SyntaxNode) -> Vec<&'static str> {
     }) {
         add("F21");
     }
+    // F21 (general form): an item that spans several lines and whose marker is not the first thing
+    // on its source line (`text #f[- a⏎          b]`): the continuation lines are re-indented
+    // relative to the enclosing block, not to the marker, and leave the item
+    {
+        let text = root.clone().into_text();
+        fn walk21(n: &SyntaxNode, off: &mut usize, text: &str, hit: &mut bool) {
+            let start = *off;
+            if n.children().len() == 0 {
+                *off += n.text().len();
+                return;
+            }
+            for c in n.children() {
+                walk21(c, off, text, hit);
+            }
+            if matches!(n.kind(), K::ListItem | K::EnumItem | K::TermItem) {
+                let body = &text[start..*off];
+                if body.chars().any(typst_syntax::is_newline) {
+                    let line_start = text[..start].rfind(|c: char| typst_syntax::is_newline(c)).map(|i| i + text[i..].chars().next().map(|c| c.len_utf8()).unwrap_or(1)).unwrap_or(0);
+                    if !text[line_start..start].chars().all(|c| c.is_whitespace()) {
+                        *hit = true;
+                    }
+                }
+            }
+        }
+        let mut hit = false;
+        walk21(root, &mut 0, &text, &mut hit);
+        if hit {
+            add("F21");
+        }
+    }
     // F10: a blank line inside a list-like construct that is laid out on one line
     if any_node(root, &|n| {
         matches!(n.kind(), K::Args | K::Array | K::Dict | K::Params | K::Destructuring)
